@@ -74,6 +74,14 @@ def symbols_of(e):
             todo.extend(x.children())
     return out
 
+def quant(kind, bound, body, patterns=None):
+    """quantifier with explicit E-matching patterns when they are admissible (a pattern must not contain if-then-else or other interpreted structure), otherwise with inferred ones"""
+    mk = z3.ForAll if kind == "forall" else z3.Exists
+    if patterns:
+        try: return mk(bound, body, patterns=patterns)
+        except z3.Z3Exception: pass
+    return mk(bound, body)
+
 class Theory:
     """SMT side of the registry: spec-function symbols + axioms, proved lemmas, assumed axioms. cex_bound=None -> proof mode."""
     def __init__(self, reg, cex_bound=None):
@@ -114,6 +122,7 @@ class FnExec:
                 if isinstance(c, (ast.For, ast.While)): self.loop_ids[id(c)] = len(self.loop_ids)
                 walk(c)
         walk(self.fn)
+        self.comp_ids = {id(c): i for i, c in enumerate(x for x in ast.walk(self.fn) if isinstance(x, ast.ListComp))}
         self.mode = "code"; self.pending_exc = []; self.handlers = []
         # binding check: loop invariants attach to loops by ordinal, so the loop headers must be the ones the sidecar was written against
         rec = loop_signatures_recorded().get(f"{self.mod.relpath}::{qual}")
@@ -349,6 +358,7 @@ class FnExec:
         out = fresh(ListT(v.t), "comp")
         pc.append(out.t.len(out.z) == seq.t.len(seq.z)); pc.extend(wf(out))
         pc.append(z3.ForAll([q], z3.Implies(rng, out.t.at(out.z, q) == v.z), patterns=[out.t.at(out.z, q)]))
+        if id(n) in self.comp_ids: st.env[f"COMP{self.comp_ids[id(n)]}"] = out        # contracts may name the value of the k-th comprehension of the function (ast.walk order)
         return out
 
     # ------------------------------------------------------------------ calls
@@ -509,15 +519,15 @@ class FnExec:
                 trig_src += [k.value for k in q.keywords if k.arg == "trigger"]
             body = self.expr(cur, s2, pc).z
             trigs = [self.expr(t, s2, pc).z for t in trig_src]
-            kw = {"patterns": [z3.MultiPattern(*trigs) if len(trigs) > 1 else trigs[0]]} if trigs else {}      # the triggers of the chain together form one multi-pattern
-            return Val(BOOL, z3.ForAll(bound, z3.Implies(z3.And(*rngs), body), **kw) if nm == "forall" else z3.Exists(bound, z3.And(*rngs, body), **kw))
+            pats = [z3.MultiPattern(*trigs) if len(trigs) > 1 else trigs[0]] if trigs else None      # the triggers of the chain together form one multi-pattern
+            return Val(BOOL, quant(nm, bound, z3.Implies(z3.And(*rngs), body) if nm == "forall" else z3.And(*rngs, body), pats))
         if nm in ("forall", "exists"):
             var = n.args[0].id; lo = self.expr(n.args[1], st, pc).z; hi = self.expr(n.args[2], st, pc).z
             i = fresh_int(var); sq = self.bind_q(st, var, Val(INT, i)); body = self.expr(n.args[3], sq, pc).z
             rng = z3.And(lo <= i, i < hi)
             trig = [self.expr(k.value, sq, pc).z for k in n.keywords if k.arg == "trigger"]
             if trig and self.th.B is None:          # explicit E-matching trigger: forall(j, lo, hi, body, trigger=xs[j])
-                return Val(BOOL, z3.ForAll([i], z3.Implies(rng, body), patterns=trig) if nm == "forall" else z3.Exists([i], z3.And(rng, body), patterns=trig))
+                return Val(BOOL, quant(nm, [i], z3.Implies(rng, body) if nm == "forall" else z3.And(rng, body), trig))
             if self.th.B is not None:
                 self.th.side.append(z3.And(lo >= -1, hi <= self.th.B + 1))
                 insts = [z3.substitute(z3.Implies(rng, body) if nm == "forall" else z3.And(rng, body), (i, z3.IntVal(k))) for k in range(-1, self.th.B + 1)]
